@@ -368,7 +368,23 @@ class SingleInstanceForward(_Forward):
         img = c.tensor("image", [B, c.dim("C", lo=1), c.dim("H", lo=1), c.dim("W", lo=1)], FLOAT, nan_ok=False)
         net = IdealNet(K, stride, sigma)
         self._last_stride = stride
+        # the frame's original size (height, width), as the providers attach it; the labelled
+        # keypoints lie inside the original frame
+        osz = c.tensor("orig_size", [B, 2], FLOAT, nan_ok=False)
+        self._osz = osz
         return dict(net=net, K=K, thr=thr, input_scale=input_scale, image=img, eff_scale=eff)
+
+    def requires(self, c, net, K, thr, input_scale, image, eff_scale):
+        # domain: every labelled keypoint lies inside the original frame (orig_size = (height, width))
+        kr, orr, er = K.reader(), self._osz.reader(), eff_scale.reader()
+
+        def inside(b_, n_):
+            u = V.f_mul(input_scale, er([b_]))
+            xo, yo = V.f_div(kr([b_, n_, 0]), u), V.f_div(kr([b_, n_, 1]), u)
+            vis = V.b_not(V.b_or(V.f_isnan(kr([b_, n_, 0])), V.f_isnan(kr([b_, n_, 1]))))
+            return V.b_implies(vis, V.b_and(V.f_le(0.0, xo), V.f_le(xo, V.f_sub(orr([b_, 1]), 1.0)), V.f_le(0.0, yo), V.f_le(yo, V.f_sub(orr([b_, 0]), 1.0))))
+
+        return [("labelled-keypoints-lie-inside-the-original-frame", Forall([K.shape[0], K.shape[1]], inside))]
 
     def run(self, interp, args):
         cv = interp.resolve_dotted("sleap_nn.inference.single_instance.SingleInstanceInferenceModel")
@@ -376,19 +392,21 @@ class SingleInstanceForward(_Forward):
         obj.attrs.update(torch_model=args["net"], peak_threshold=args["thr"], refinement=None, integral_patch_size=5,
                          output_stride=args["net"].stride, return_confmaps=False, input_scale=args["input_scale"])
         m, _ = cv.lookup("forward")
-        self._inputs = {"image": args["image"], "eff_scale": args["eff_scale"], "frame_idx": "frame-index-tensor", "video_idx": "video-index-tensor"}
+        self._inputs = {"image": args["image"], "eff_scale": args["eff_scale"], "frame_idx": "frame-index-tensor", "video_idx": "video-index-tensor", "orig_size": self._osz}
         return interp.call(m, [obj, self._inputs], {})
 
     no_replay = False
     rand_ranges = {"B": (1, 2), "N": (1, 3), "C": (1, 1), "H": (4, 12), "W": (4, 12), "output_stride": (1, 2), "sigma": (0.8, 2.5),
-                   "peak_threshold": (0.05, 0.3), "input_scale": (0.5, 1.0), "eff_scale": (0.5, 1.5), "keypoints_net": (0.0, 9.0), "image": (0.0, 1.0)}
+                   "peak_threshold": (0.05, 0.3), "input_scale": (0.5, 1.0), "eff_scale": (0.5, 1.5), "keypoints_net": (0.0, 9.0), "image": (0.0, 1.0), "orig_size": (8.0, 40.0)}
 
     def real_call(self, ra):
         from sleap_nn.inference.single_instance import SingleInstanceInferenceModel
 
         m = SingleInstanceInferenceModel(torch_model=ra["net"], output_stride=int(self._last_stride), peak_threshold=ra["thr"],
                                          refinement=None, input_scale=ra["input_scale"])
-        return m.forward({"image": ra["image"], "eff_scale": ra["eff_scale"], "frame_idx": "frame-index-tensor", "video_idx": "video-index-tensor"})
+        from pyvc.concrete import to_real
+
+        return m.forward({"image": ra["image"], "eff_scale": ra["eff_scale"], "frame_idx": "frame-index-tensor", "video_idx": "video-index-tensor", "orig_size": to_real(self._osz)})
 
     def _stride(self, ra):
         return self._last_stride
